@@ -378,7 +378,7 @@ pub fn scenarios(prop: &str, tier: &str) -> Vec<Cfg> {
         }
         // ------------------------------------------------------------------------------------ C03 (histories; the layout sweep is in special.rs)
         "C03" => {
-            let d = if thorough { 9 } else { 7 };
+            let d = if thorough { 8 } else { 6 };
             for (k, pre) in [
                 (Kind::Fub(1), 0),
                 (Kind::Fub(2), 0),
@@ -388,11 +388,12 @@ pub fn scenarios(prop: &str, tier: &str) -> Vec<Cfg> {
                 (Kind::FuNew, 0),
                 (Kind::Fob(2), 0),
                 (Kind::Mb(2), 2),
+                (Kind::Mb(3), 3),
             ] {
                 let mut c = Cfg::new("C03", k);
                 c.name = format!("{:?} prefill {}", k, pre);
-                c.prefill = (0..pre).map(|_| if k.is_merge() { s("PI") } else { f(Mode::Gate) }).collect();
-                c.specs = if k.is_merge() { vec![] } else { vec![f(Mode::Gate), f(Mode::Ready), f(Mode::PanicOnce)] };
+                c.prefill = (0..pre).map(|i| if k.is_merge() { s(if i == 2 { "I~" } else { "PI" }) } else { f(Mode::Gate) }).collect();
+                c.specs = if k.is_merge() { vec![] } else { vec![f(Mode::Gate), f(Mode::Ready), f(Mode::PanicOnce), f(Mode::DropPanic)] };
                 c.ops = ops::POLL | ops::COMPLETE | ops::WAKER_POOL | ops::DROP_SUBJECT | ops::STALE_WAKE | ops::DROP_ON_WAKE;
                 if !k.is_merge() {
                     c.ops |= ops::PUSH;
@@ -547,12 +548,12 @@ pub fn scenarios(prop: &str, tier: &str) -> Vec<Cfg> {
             for (k, pre) in family_u().into_iter().chain(family_o()) {
                 let mut c = Cfg::new("C06", k);
                 c.prefill = (0..pre).map(|_| f(Mode::Gate)).collect();
-                c.specs = vec![f(Mode::Gate), f(Mode::Ready), f(Mode::Yield1)];
+                c.specs = vec![f(Mode::Gate), f(Mode::Ready), f(Mode::Yield1), f(Mode::DropPanic), f(Mode::PanicOnce)];
                 c.ops = ops::PUSH | ops::POLL | ops::COMPLETE | ops::PUSH_WHEN_FULL | ops::PANIC_PUSH | ops::WAKER_POOL;
                 if k.is_ordered() {
                     c.ops |= ops::PUSH_FRONT;
                 }
-                c.costly = ops::PUSH_WHEN_FULL | ops::PANIC_PUSH | ops::WAKER_POOL;
+                c.costly = ops::PUSH_WHEN_FULL | ops::PANIC_PUSH | ops::WAKER_POOL | ops::PUSH;
                 c.delta = 2;
                 c.depth = d;
                 c.epilogue = Epilogue::DropNow;
@@ -593,10 +594,19 @@ pub fn scenarios(prop: &str, tier: &str) -> Vec<Cfg> {
                 let mut c = Cfg::new("C06", k);
                 c.name = format!("{:?}[{}]", k, pre.iter().map(|p| p.render()).collect::<Vec<_>>().join(","));
                 c.prefill = pre;
-                c.specs = vec![s("I"), s("P")];
+                c.specs = vec![s("I"), s("P"), s("I~"), s("~")];
                 c.ops = ops::POLL | ops::COMPLETE | ops::PUSH | ops::PUSH_WHEN_FULL | ops::WAKER_POOL;
                 c.costly = ops::PUSH_WHEN_FULL | ops::WAKER_POOL;
                 c.delta = 2;
+                c.depth = d;
+                c.epilogue = Epilogue::DropNow;
+                v.push(c);
+            }
+            for (k, pre) in [(Kind::Mb(2), vec![s("I~"), s("P")]), (Kind::Mb(3), vec![s("~"), s("IP~"), s("I")]), (Kind::Mu(2), vec![s("P~"), s("I~")])] {
+                let mut c = Cfg::new("C06", k);
+                c.name = format!("{:?}[{}] (panicking destructors)", k, pre.iter().map(|p| p.render()).collect::<Vec<_>>().join(","));
+                c.prefill = pre;
+                c.ops = ops::POLL | ops::COMPLETE | ops::WAKER_POOL;
                 c.depth = d;
                 c.epilogue = Epilogue::DropNow;
                 v.push(c);
@@ -997,6 +1007,28 @@ pub fn scenarios(prop: &str, tier: &str) -> Vec<Cfg> {
                     }
                 }
             }
+            // free-form small histories with slot reuse and stale wakes: a child that was pushed or woken
+            // must still be reached (Starve epilogue: keep polling, nothing is completed)
+            for (k, pre) in family_uo_small().into_iter().chain([(Kind::FuCap(1), 3), (Kind::Mb(2), 0)]) {
+                let mut c = Cfg::new("C13", k);
+                c.name = format!("{:?} prefill {} (slot reuse, stale wakes)", k, pre);
+                c.prefill = (0..pre).map(|_| f(Mode::Gate)).collect();
+                if k.is_merge() {
+                    c.prefill = vec![s("I!"), s("P")];
+                    c.specs = vec![s("P"), s("w")];
+                } else {
+                    c.specs = vec![f(Mode::Gate), f(Mode::WakeReady), f(Mode::Ready), f(Mode::YieldInf)];
+                }
+                c.ops = ops::PUSH | ops::POLL | ops::COMPLETE | ops::WAKE | ops::STALE_WAKE;
+                if k.is_ordered() {
+                    c.ops |= ops::PUSH_FRONT;
+                }
+                c.costly = ops::PUSH | ops::WAKE;
+                c.delta = 2;
+                c.depth = if thorough { 7 } else { 6 };
+                c.epilogue = Epilogue::Starve;
+                v.push(c);
+            }
             // populations that do NOT wake themselves, above the per-poll budget: a poll that stops
             // early must have woken its task
             for (k, n, sp) in [
@@ -1202,10 +1234,35 @@ pub fn scenarios(prop: &str, tier: &str) -> Vec<Cfg> {
         }
         _ => {}
     }
+    // collections collected from many futures (above the first group size), for the properties about
+    // counting, order, observers and hints
+    if matches!(prop, "C02" | "C04" | "C15" | "C17") {
+        for k in [Kind::FuIter(50), Kind::FoIter(50), Kind::FubIter(50), Kind::FobIter(50)] {
+            let mut c = Cfg::new(
+                match prop {
+                    "C02" => "C02",
+                    "C04" => "C04",
+                    "C15" => "C15",
+                    _ => "C17",
+                },
+                k,
+            );
+            c.name = format!("{:?} collected from 50 futures", k);
+            c.prefill = (0..50).map(|i| f(if i % 2 == 0 { Mode::Ready } else { Mode::Gate })).collect();
+            c.specs = vec![f(Mode::Ready)];
+            c.ops = ops::PUSH | ops::POLL | ops::COMPLETE;
+            c.focus = Some(vec![1, 49]);
+            c.depth = 3;
+            c.epilogue = Epilogue::Drain;
+            c.check_hints = prop == "C17";
+            c.horizon = 4000;
+            v.push(c);
+        }
+    }
     // every scenario built by a from_iter-style constructor is also run with an inexact size hint
     let mut extra = vec![];
     for c in &v {
-        if matches!(c.kind, Kind::FubIter(_) | Kind::FuIter(_) | Kind::FobIter(_) | Kind::FoIter(_) | Kind::Mb(_) | Kind::MuIter(_)) && !c.inexact_iter && c.prefill.len() <= 8 {
+        if matches!(c.kind, Kind::FubIter(_) | Kind::FuIter(_) | Kind::FobIter(_) | Kind::FoIter(_) | Kind::Mb(_) | Kind::MuIter(_)) && !c.inexact_iter && c.prefill.len() <= 64 {
             let mut d = c.clone();
             d.inexact_iter = true;
             d.name = format!("{} <via filter()>", d.name);
